@@ -647,6 +647,11 @@ def _build(spec, variant=None):
     for c in spec.get('pw', []):
         pcs = [float(p_['k']) if p_.get('numeric') else lin(p_['c'], p_['k']) for p_ in c['pieces']]
         pw = rso.maxof(*pcs) if c['curv'] == 1 else rso.minof(*pcs)
+        if c.get('spell', 0) % 3 == 0:
+            # the same piecewise object is first used in a slack constraint: comparisons must
+            # not change the object
+            # (an affine right-hand side: the ro front end refuses a bare number there, loudly)
+            m.st(pw <= 0 * xs[0][0] + 1e3 if c['curv'] == 1 else pw >= 0 * xs[0][0] - 1e3)
         rest = lin(c['g'], c['k'])
         sp_ = (c.get('spell', 0) + (variant or {}).get('respell', 0)) % 4
         if c['curv'] == 1:
